@@ -1,21 +1,26 @@
-"""C14 finding (unchanged /repo): chained transformation through the DEPRECATED GraphBuilder.transform.
+"""C14 finding F-C14-dep-chain: chained transformation through the DEPRECATED GraphBuilder.transform.
+
+STATUS: repaired in /repo by commit b548a17 (`_transform_back` now builds `Calc(fn, var_transformed, ...)`).
+On the repaired tree this script prints "ok" four times and exits 0; with b548a17 reverted it exits 1.
 
 x ~ Gamma(2, 1) is transformed with Exp() (t1 = log x), then t1 is transformed with Scale(2.) (t2 = t1 / 2),
-both through GraphBuilder.transform.  model.py:_transform_back binds the original variable's Calc to
+both through GraphBuilder.transform.  As found, model.py:_transform_back bound the original variable's Calc to
 `var_transformed.value_node` (the raw Value node) instead of the variable (its VarValue proxy).  The second
 transformation replaces t1's value node by a Calc, the old Value node is orphaned, and
 
-  (a) after assigning t2 and updating the chain, x stays frozen at its old value: x is no longer the bijector
+  (a) after assigning t2 and updating the chain, x stayed frozen at its old value: x was no longer the bijector
       image exp(t1) = exp(2 t2) of the new variable (C14: "makes it the bijector image of the new unconstrained
       variable");
-  (b) build_model() raises  RuntimeError: Duplicate node names: x_transformed_value  (the orphaned Value node and
-      the new Calc carry the same name), so the chained model cannot be built at all.
+  (b) build_model() raised  RuntimeError: Duplicate node names: x_transformed_value  (the orphaned Value node and
+      the new Calc carried the same name), so the chained model could not be built at all.
 
-The same chain through Var.transform works (printed last).  The analogous mistake seeded into
-_transform_var_with_bijector_instance is /verif/seeded/C14-4.
+The same chain through Var.transform was always correct (printed last).  The analogous mistake seeded into
+_transform_var_with_bijector_instance is /verif/seeded/C14-4.  Coq: C14_dep_chain_rawnode_refuted is the witness for
+the as-found variant (RawNode), C14_chain_up_proxy ties the repaired variant (Proxy) to the positive theorems; the
+check (`./check C14`) runs deprecated chains on every run.
 
 Run:  PYTHONPATH=/repo JAX_PLATFORMS=cpu /venv/bin/python /verif/notes/C14_deprecated_chained_transform_repro.py
-Exit status 1 if the defect is present.
+Exit status 1 if the defect is present, 0 otherwise.
 """
 import sys
 import warnings
